@@ -362,6 +362,56 @@ theorem map_pair_ok {α β : Type} {r : R α} {g : α → β} {x q : List RTok} 
     simp only [Except.map, Except.ok.injEq, Prod.mk.injEq] at h
     exact ⟨h.2.symm, a, rfl, h.1.symm⟩
 
+/-- tuple loop on the stream path: consumed-prefix dependence -/
+theorem sTupFold_dep (F : Ty → RTok → List RTok → R (Val × List RTok))
+    (H : ∀ t tok x a q, F t tok x = .ok (a, q) → ∃ c, x = c ++ q ∧ RTok.err ∉ c ∧ ∀ y, F t tok (c ++ y) = .ok (a, y)) :
+    ∀ (ts : List Ty) (x : List RTok) (vs : List Val) (q : List RTok), sTupFold F ts x = .ok (vs, q) →
+    ∃ c, x = c ++ q ∧ RTok.err ∉ c ∧ ∀ y, sTupFold F ts (c ++ y) = .ok (vs, y)
+  | [], x, vs, q, h => by
+      simp only [sTupFold, Except.ok.injEq, Prod.mk.injEq] at h
+      obtain ⟨rfl, rfl⟩ := h
+      exact ⟨[], by simp, by simp, fun y => by simp [sTupFold]⟩
+  | t :: rest, x, vs, q, h => by
+      simp only [sTupFold] at h
+      cases hr : rRead x with
+      | error e => simp [hr] at h
+      | ok tr =>
+        obtain ⟨tok, r⟩ := tr
+        obtain ⟨rfl, hte⟩ := rRead_ok hr
+        by_cases htc : tok = .close
+        · subst htc; simp [hr] at h
+        · have hrr : ∀ z, rRead (tok :: z) = .ok (tok, z) := fun z => rRead_cons hte z
+          have hstep : ∀ z, sTupFold F (t :: rest) (tok :: z) =
+              (match F t tok z with
+               | .error e => .error e
+               | .ok (v, r') =>
+                 match sTupFold F rest r' with
+                 | .error e => .error e
+                 | .ok (tl, r'') => .ok (v :: tl, r'')) := by
+            intro z; cases tok <;> simp_all [sTupFold, rRead] <;> rfl
+          have h' : sTupFold F (t :: rest) (tok :: r) = .ok (vs, q) := by simp only [sTupFold]; exact h
+          rw [hstep] at h'
+          cases hF : F t tok r with
+          | error e => simp [hF] at h'
+          | ok ar =>
+            obtain ⟨a, r'⟩ := ar
+            simp only [hF] at h'
+            cases hS : sTupFold F rest r' with
+            | error e => simp [hS] at h'
+            | ok tlr =>
+              obtain ⟨tl, r''⟩ := tlr
+              simp only [hS, Except.ok.injEq, Prod.mk.injEq] at h'
+              obtain ⟨rfl, rfl⟩ := h'
+              obtain ⟨c1, hx1, he1, hy1⟩ := H t tok r a r' hF
+              obtain ⟨c2, hx2, he2, hy2⟩ := sTupFold_dep F H rest r' tl r'' hS
+              refine ⟨tok :: (c1 ++ c2), by simp [hx1, hx2], ?_, ?_⟩
+              · simp only [List.mem_cons, List.mem_append, not_or]
+                exact ⟨fun h => hte h.symm, he1, he2⟩
+              · intro y
+                simp only [List.cons_append]
+                rw [hstep, List.append_assoc, hy1 (c2 ++ y)]
+                simp only [hy2 y]
+
 /-- the dependence statement for one value deserializer call -/
 def SdeDep (enc : Enc) (f : Nat) : Prop :=
   ∀ ty tok op x v q, sde enc f ty tok op x = .ok (v, q) →
@@ -482,6 +532,26 @@ theorem sde_dep (enc : Enc) : ∀ (f : Nat), SdeDep enc f := by
           obtain ⟨rfl, rfl⟩ := h
           exact ⟨[], by simp, by simp, fun y => by simp_all [sde]⟩
         · simp at h
+    | tup ts =>
+      simp only [sde] at h
+      cases hS : sTupFold (fun t tok r => sde enc f t tok .eq r) ts x with
+      | error e => simp [hS] at h
+      | ok vr =>
+        obtain ⟨vs, r⟩ := vr
+        simp only [hS] at h
+        cases hr : rRead r with
+        | error e => simp [hr] at h
+        | ok tr =>
+          obtain ⟨tok', r'⟩ := tr
+          obtain ⟨rfl, hte⟩ := rRead_ok hr
+          by_cases htc : tok' = .close
+          · subst htc
+            simp only [hr, Except.ok.injEq, Prod.mk.injEq] at h
+            obtain ⟨rfl, rfl⟩ := h
+            obtain ⟨c, hx, he, hy⟩ := sTupFold_dep _ (fun t tok x a q hF => ih t tok .eq x a q hF) ts x vs _ hS
+            refine ⟨c ++ [.close], by simp [hx], by simp [he], fun y => ?_⟩
+            simp only [sde, List.append_assoc, List.singleton_append, hy (RTok.close :: y), rRead]
+          · cases tok' <;> simp_all [rRead]
     | seq t =>
       simp only [sde] at h
       cases hS : sSeqFold (fun t' r => sde enc f t t' .eq r) (x.length + 1) x with
@@ -662,6 +732,7 @@ theorem deStream_replace_err (enc : Enc) (ty : Ty) (p s : List RTok) (v : Val)
   | opt t => simp [deStream] at h
   | seq t => simp [deStream] at h
   | en vs => simp [deStream] at h
+  | tup ts => simp [deStream] at h
 
 /-- C20 at the deserializer: an `Ok` result obtained although the stream broke after `n` tokens is
 the fault-free result -/
@@ -929,10 +1000,11 @@ theorem C19_text_de (enc : Enc) (ty : Ty) (ts : List RTok) (n : Nat) (v v' : Val
   | opt t => simp [deStream] at h
   | seq t => simp [deStream] at h
   | en vs => simp [deStream] at h
+  | tup ts => simp [deStream] at h
 
 /-! ### the same at the level of documents: the last top-level fields dropped -/
 
-theorem lexFields_append : ∀ (a b : List (Bytes × Op × Node)), lexFields (a ++ b) = lexFields a ++ lexFields b
+theorem lexFields_append : ∀ (a b : List (Key × Op × Node)), lexFields (a ++ b) = lexFields a ++ lexFields b
   | [], b => by simp [lexFields]
   | (k, o, v) :: r, b => by simp [lexFields, lexFields_append r b]
 
@@ -943,7 +1015,7 @@ theorem lexemes_take (d : Doc) (k : Nat) :
     simp only [lexemes]; rw [← lexFields_append, List.take_append_drop]
   rw [h]; simp
 
-theorem wfFields_take : ∀ (d : List (Bytes × Op × Node)) (k : Nat), wfFields d = true → wfFields (d.take k) = true
+theorem wfFields_take : ∀ (d : List (Key × Op × Node)) (k : Nat), wfFields d = true → wfFields (d.take k) = true
   | [], k, _ => by simp [wfFields]
   | f :: r, 0, _ => by simp [wfFields]
   | (k0, o, v) :: r, k + 1, h => by
